@@ -13,10 +13,11 @@ import numpy as np
 
 from harness import alpha, compare, core, gamma, shims, tlc, util
 
-KINDS_C04 = ["DeleteFile", "Truncate", "Extend", "InsertData", "RemoveData", "HeadCut", "HeadPad", "FabIdx", "FabNComp",
-             "CellHIdx", "DropBoxLine", "DropFodLine", "GarbleBox", "GarbleFod", "NFieldsLine",
-             "FodFile", "FodOffset", "BoxBound"]
-KINDS_C20 = KINDS_C04 + ["FabBlanks", "FodEarly"]
+KINDS_BASE = ["DeleteFile", "Truncate", "Extend", "InsertData", "RemoveData", "HeadCut", "HeadPad", "FabIdx", "FabNComp",
+              "CellHIdx", "DropBoxLine", "DropFodLine", "GarbleBox", "GarbleFod", "NFieldsLine",
+              "FodFile", "FodOffset", "BoxBound"]
+KINDS_C04 = KINDS_BASE + ["DataShift"]
+KINDS_C20 = KINDS_BASE + ["FabBlanks", "FodEarly"]
 EARLY = 8              # bytes by which a FodEarly position precedes the FAB header (one zero-valued cell of the preceding payload)
 INVS = ["AcceptsWellFormed", "RejectsDamaged", "AcceptedIsReadable", "NeverRaisesNoFail", "Emit"]
 HEAD_EDIT = 3          # bytes cut from / put in front of a FAB header line by HeadCut / HeadPad
@@ -91,6 +92,9 @@ def concretise(chk, sc, cfgseed, ndims, style=None):
     style = style or {}
     cfg_ = gamma.Config.draw(rng, ndims=ndims, payload=style.get("payload", "tame"))
     ap = build_ap(sc, ndims)
+    if style.get("ishift"):
+        # an index space that does not start at 0 (validated by the default checks, which never turn indices into coordinates)
+        gamma.shift_indices(ap, [[-8, -3, -16], [-4, 0, -1], [5, -2, 0]][cfgseed % 3])
     d = os.path.join(chk.tmp_reuse(), "p")
     os.makedirs(os.path.dirname(d))
     reg = gamma.write_plotfile(d, ap, cfg_)
@@ -136,6 +140,7 @@ def concretise(chk, sc, cfgseed, ndims, style=None):
                 continue
             idx, nc, canon = u[:3]
             sh = u[3] if len(u) > 3 else 0
+            mv = u[4] if len(u) > 4 else 0
             lo, hi = idx_range(ap, lv, idx)
             hdr = gamma.fab_header(lo, hi, nc)
             nominal = len(hdr)
@@ -143,11 +148,17 @@ def concretise(chk, sc, cfgseed, ndims, style=None):
                 hdr = hdr[HEAD_EDIT:]                 # bytes cut from the start of the line: its tail still parses
             elif sh > 0:
                 hdr = b"fab"[:HEAD_EDIT] + hdr        # ASCII bytes in front of the line
-            elif not canon:
+            elif not canon and not mv:
                 hdr = hdr.replace(b") (", b")  (", 1)
                 nominal = len(hdr)                    # blanks: the level header records the positions as they are
+            if mv and out:
+                # DataShift: 1..3 values leave the end of the FAB in front and enter this FAB's payload right behind its header
+                nshift = 8 * (1 + (cfgseed + i) % 3)
+                out[-1] = out[-1][:-nshift]
             out.append(hdr)
-            # recorded byte positions do not follow a cut / pad: that is the damage
+            if mv and out:
+                out.append(junk(nshift))
+            # recorded byte positions do not follow a cut / pad / shift: that is the damage
             pos.append(pos[-1] + nominal)
             i += 1
             # intact FAB of a real box: real data, so that reads can be compared
